@@ -431,6 +431,8 @@ def guarded_case(rnd, cid, p=BN128, depth=None):
             r = b.emit(f"bin {op} r{a} r{c}", "?"); bodyops.append(op)
             if op in ("mul", "add", "truediv") and rnd.random() < 0.7:
                 pool.append(r)
+        elif kind < 0.55:
+            b.emit(f"wrapb r{a}", "B"); bodyops.append("wrapb")      # LinCombBool(x): declaration as boolean
         elif kind < 0.85:
             m = rnd.choice(ASSERTS + ["assert_zero", "assert_nonzero", "assert_positive", "check_positive", "to_bits"])
             if m in ASSERTS:
